@@ -24,7 +24,7 @@ def cond_str(c):
     if k == "none":
         return ""
     if k == "eq":
-        return f"={c['n']}"
+        return f"={300000 - c['n'] if 300000 < c['n'] < 400000 else c['n']}"       # NegBase + n stands for -n
     if k in ("lt", "gt", "lte", "gte"):
         return f"~{k}({c['n']})"
     if k == "every":
